@@ -133,3 +133,20 @@ Theorem minkowski_nonconvex_refuted :
     A vzero /\ B vzero /\ msum A B p /\ ~ code_nn A trisA trisB p.
 Proof. exact (ex_intro _ wA (ex_intro _ wB (ex_intro _ wtA (ex_intro _ wtB (ex_intro _ (onx 5) minkowski_nonconvex_refuted_l))))). Qed.
 Print Assumptions minkowski_nonconvex_refuted.
+
+(* dispatch condition of the convex-convex fast path (Impl::IsConvex): the
+   fast-path expression always contains the hull of A's vertices, so it is
+   only sound when that hull is inside A (+) B - for a single Manifold made of
+   disjoint convex bodies (no concave edge, genus <> 0) it is refuted.  The
+   check ties Impl::IsConvex() to the exact global-convexity verdict of
+   hull_check (mesh against its own vertices) on generated solids. *)
+Theorem fast_path_requires_hull_inside : forall A VA VB S : set,
+  conv VB vzero -> incl (code_cc A VA VB) S -> incl (conv VA) S.
+Proof. exact fast_path_requires_hull_inside_l. Qed.
+Print Assumptions fast_path_requires_hull_inside.
+
+Theorem fast_path_multibody_refuted :
+  exists (A VA VB : set) (p : vec),
+    conv VB vzero /\ incl VA A /\ code_cc A VA VB p /\ ~ msum A (conv VB) p.
+Proof. exact (ex_intro _ wA2 (ex_intro _ wVA2 (ex_intro _ wVB0 (ex_intro _ (onx (5 # 2)) fast_path_multibody_refuted_l)))). Qed.
+Print Assumptions fast_path_multibody_refuted.
